@@ -27,7 +27,8 @@ RULE = ("hand-written phases of 1-12 statements of all kinds (Assign with 0-2 lo
 ASSUMPTIONS = [
     "guards are opaque: every distinct flag gets one truth value for the whole walk (the property quantifies "
     "over valuations of the statements' guards)",
-    "loop bodies are not iterated; a leaf is identified with its enclosing (counter, lower, upper) nest",
+    "loop bounds are opaque: a leaf is identified with its enclosing (counter, lower, upper) nest, and in the "
+    "iterated walk every loop makes exactly two trips",
 ]
 ANCHORS = ["dagrt.codegen.dag_ast:create_ast_from_phase", "dagrt.codegen.dag_ast:loop_to_ast_node",
            "dagrt.codegen.dag_ast:conditional_to_ast", "dagrt.codegen.codegen_base:StructuredCodeGenerator.lower_node"]
@@ -250,7 +251,7 @@ def run_stream(stream, val):
 
 def check_phase(desc, rec, rng, nperm=4):
     from dagrt.codegen.dag_ast import create_ast_from_phase
-    from vf.treewalk import leaf_trace, show
+    from vf.treewalk import leaf_trace, leaf_trace_iterated, show
     try:
         with case_alarm(20):
             dag = make_dag(desc)
@@ -263,6 +264,17 @@ def check_phase(desc, rec, rng, nperm=4):
         return None
     rec.count("phases_lowered")
     byid = {d["id"]: d for d in desc["stmts"]}
+    closure = {}
+
+    def reach(x):
+        if x not in closure:
+            closure[x] = set()
+            for y in byid[x]["deps"]:
+                if y in byid:
+                    closure[x] |= {y} | reach(y)
+        return closure[x]
+    for d in desc["stmts"]:
+        reach(d["id"])
     flags = flags_in(desc)
     base_show = show(tree)
     for bits in itertools.product([False, True], repeat=len(flags)):
@@ -291,6 +303,28 @@ def check_phase(desc, rec, rng, nperm=4):
                 if dpd in pos and pos[dpd] > pos[x]:
                     rec.violation("dependency-order-violated",
                                   f"under {val}: {x} before its dependency {dpd}: {got_ids}", wit)
+                    return None
+        # loops really iterated (two trips each): all executions of a statement come before any execution of a
+        # statement that (transitively) depends on it, and each statement runs once per iteration vector
+        evs = leaf_trace_iterated(tree, val, 2)
+        rec.count("iterated_leaf_events_checked", len(evs))
+        first, last, count = {}, {}, {}
+        for i, (k, itv) in enumerate(evs):
+            first.setdefault(k[1], i)
+            last[k[1]] = i
+            count[k[1]] = count.get(k[1], 0) + 1
+        for x in got_ids:
+            if count.get(x) != 2 ** len(byid[x]["loops"]):
+                rec.violation("iteration-count-changed",
+                              f"under {val}: {x} declares {len(byid[x]['loops'])} loop(s) but runs {count.get(x)} "
+                              f"times when every loop makes two trips\n{base_show}", wit)
+                return None
+            for dpd in closure[x]:
+                if dpd in last and last[dpd] > first[x]:
+                    rec.violation("dependency-order-violated-across-iterations",
+                                  f"under {val}: an execution of {x} comes before the last execution of {dpd}, on "
+                                  f"which it depends: {[(k[1], tuple(j for _, j in itv)) for k, itv in evs]}"
+                                  f"\n{base_show}", wit)
                     return None
         for t in tr:
             sid, loops = t[1], (t[2] if len(t) > 2 else ())
